@@ -13,3 +13,5 @@ import StirVerif.C16.Props
 import StirVerif.C10.Props
 import StirVerif.C20.Props
 import StirVerif.C19.Props
+import StirVerif.C04.Props
+import StirVerif.C05.Props
